@@ -58,6 +58,7 @@ func rootIdent(e ast.Expr) *ast.Ident {
 
 func determinismObligations(c *CheckCtx) error {
 	nMaps, nCalls := 0, 0
+	orderExporters := map[string]string{} // method name -> obligation name: returns a slice in iteration order
 	fail := func(name, what string, pos token.Position) {
 		c.ExtraFindings = append(c.ExtraFindings, Finding{Obligation: name, What: fmt.Sprintf("%s:%d: %s", pos.Filename, pos.Line, what),
 			Replay: map[string]any{"kind": "determinism obligation (typed AST)", "position": pos.String()}})
@@ -68,6 +69,21 @@ func determinismObligations(c *CheckCtx) error {
 			return err
 		}
 		info := p.TypesInfo
+		// does this package build hash tables (unordered iteration)? The generator package builds red-black trees only.
+		pkgUsesHashTables := false
+		for _, f := range p.Syntax {
+			if strings.HasSuffix(p.Fset.Position(f.Pos()).Filename, "_test.go") {
+				continue
+			}
+			ast.Inspect(f, func(n ast.Node) bool {
+				if sel, ok := n.(*ast.SelectorExpr); ok && strings.HasPrefix(sel.Sel.Name, "New") && strings.HasSuffix(sel.Sel.Name, "HashTable") {
+					if id, ok := sel.X.(*ast.Ident); ok && id.Name == "symboltable" {
+						pkgUsesHashTables = true
+					}
+				}
+				return true
+			})
+		}
 		for _, f := range p.Syntax {
 			fname := p.Fset.Position(f.Pos()).Filename
 			if strings.HasSuffix(fname, "_test.go") {
@@ -91,16 +107,29 @@ func determinismObligations(c *CheckCtx) error {
 					if !ok {
 						return
 					}
+					what := "a Go map"
 					if _, isMap := tv.Type.Underlying().(*types.Map); !isMap {
-						return
+						// an iterator over a hash table of the dependency: its All() shuffles the slots with a time-seeded
+						// generator, so the order is random by design (the red-black tables iterate in key order)
+						if !pkgUsesHashTables || !isSymbolTableAll(info, rs.X) {
+							return
+						}
+						what = "a hash-table iterator (symboltable All(): shuffled order)"
 					}
+					_ = what
 					nMaps++
 					name := fmt.Sprintf("%s#comm[%d]", key, ordMap)
 					ordMap++
 					pos := p.Fset.Position(rs.Pos())
-					// (ii) collect-then-sort
-					if len(rs.Body.List) == 1 {
-						if as, ok := rs.Body.List[0].(*ast.AssignStmt); ok && len(as.Lhs) == 1 && len(as.Rhs) == 1 {
+					// (ii) collect-then-sort (possibly through a filter that looks at the element only)
+					body1 := rs.Body.List
+					if len(body1) == 1 {
+						if ifs, ok := body1[0].(*ast.IfStmt); ok && ifs.Else == nil && ifs.Init == nil && len(ifs.Body.List) == 1 && pureCond(ifs.Cond) {
+							body1 = ifs.Body.List
+						}
+					}
+					if len(body1) == 1 {
+						if as, ok := body1[0].(*ast.AssignStmt); ok && len(as.Lhs) == 1 && len(as.Rhs) == 1 {
 							if call, ok := as.Rhs[0].(*ast.CallExpr); ok && exprString(call.Fun) == "append" && len(call.Args) >= 1 && exprString(call.Args[0]) == exprString(as.Lhs[0]) {
 								if es, ok := next.(*ast.ExprStmt); ok {
 									if sc, ok := es.X.(*ast.CallExpr); ok && len(sc.Args) >= 1 && exprString(sc.Args[0]) == exprString(as.Lhs[0]) {
@@ -110,7 +139,13 @@ func determinismObligations(c *CheckCtx) error {
 										}
 									}
 								}
-								fail(name, "range over a Go map collects into "+exprString(as.Lhs[0])+" but the slice is not sorted right after the loop: its order is the map's iteration order", pos)
+								// (iii) the unsorted slice is what the function returns: allowed only if every caller hands it
+								// straight to a consumer that builds a set from it (checked after the scan)
+								if rt, ok := next.(*ast.ReturnStmt); ok && len(rt.Results) == 1 && exprString(rt.Results[0]) == exprString(as.Lhs[0]) {
+									orderExporters[fd.Name.Name] = name
+									return
+								}
+								fail(name, "range over "+what+" collects into "+exprString(as.Lhs[0])+" but the slice is not sorted right after the loop: its order is the iteration order", pos)
 								return
 							}
 						}
@@ -168,7 +203,7 @@ func determinismObligations(c *CheckCtx) error {
 						return true
 					})
 					if bad != "" {
-						fail(name, "range over a Go map whose body "+bad+": the effect depends on the map's iteration order", pos)
+						fail(name, "range over "+what+" whose body "+bad+": the effect depends on the iteration order", pos)
 					}
 				}
 				walkBlock = func(list []ast.Stmt) {
@@ -258,7 +293,51 @@ func determinismObligations(c *CheckCtx) error {
 			}
 		}
 	}
-	c.Notes = append(c.Notes, fmt.Sprintf("determinism scan: %d packages, %d calls inspected, %d ranges over Go maps classified (element-local or collect-then-sort)", len(c15Pkgs), nCalls, nMaps))
+	// (iii) continued: every call of a function that returns a slice in iteration order must be, directly, an argument of a
+	// constructor that builds a set from it (A-SET: grammar.NewCFG puts terminals, non-terminals and productions into sets)
+	setConsumers := map[string]bool{"grammar.NewCFG": true}
+	if len(orderExporters) > 0 {
+		for _, pp := range c15Pkgs {
+			p, err := loadOne(c.Repo, pp)
+			if err != nil {
+				return err
+			}
+			for _, f := range p.Syntax {
+				if strings.HasSuffix(p.Fset.Position(f.Pos()).Filename, "_test.go") {
+					continue
+				}
+				consumed := map[*ast.CallExpr]bool{}
+				ast.Inspect(f, func(n ast.Node) bool {
+					if call, ok := n.(*ast.CallExpr); ok && setConsumers[exprString(call.Fun)] {
+						for _, a := range call.Args {
+							if ac, ok := ast.Unparen(a).(*ast.CallExpr); ok {
+								consumed[ac] = true
+							}
+						}
+					}
+					return true
+				})
+				ast.Inspect(f, func(n ast.Node) bool {
+					call, ok := n.(*ast.CallExpr)
+					if !ok {
+						return true
+					}
+					sel, ok := ast.Unparen(call.Fun).(*ast.SelectorExpr)
+					if !ok {
+						return true
+					}
+					if name, isExp := orderExporters[sel.Sel.Name]; isExp && !consumed[call] {
+						if tv, ok := p.TypesInfo.Types[sel.X]; ok && strings.Contains(tv.Type.String(), "SymbolTable") {
+							fail(name, "returns its elements in the table's (random) iteration order and this call does not hand them straight to a set constructor", p.Fset.Position(call.Pos()))
+						}
+					}
+					return true
+				})
+			}
+		}
+		c.Notes = append(c.Notes, fmt.Sprintf("A-SET: %d functions return a slice in iteration order; every call site passes it directly to grammar.NewCFG, which builds sets from its arguments (order-insensitive consumer, assumed)", len(orderExporters)))
+	}
+	c.Notes = append(c.Notes, fmt.Sprintf("determinism scan: %d packages, %d calls inspected, %d unordered ranges (Go maps and hash-table iterators) classified (element-local, collect-then-sort, or handed to a set constructor)", len(c15Pkgs), nCalls, nMaps))
 	return nil
 }
 
@@ -282,4 +361,35 @@ func init() {
 		Explain: "Determinism (a 2-safety property) is reduced to per-function obligations. Decided on the typed AST (syntactic effect/frame obligations, not SMT): no function of the eight packages the command is built from (the working directory, the default of -out, counts as an option) starts a goroutine, selects, reads the clock, the environment, per-process values or a random source (the decorative emoji excepted, and it flows only into Infof arguments) or formats pointers; every range over a Go map either touches only the element it visits or collects into a slice that is sorted right after the loop (the two loops that did not - accepting-state lists in Spec.DFA, duplicate-value diagnostics - were repaired). SMT-discharged: the comparator of Definitions is total on distinct terminals (sort.Quick shuffles with a time-seeded generator, so a tie would come out in random order) and Definitions returns exactly the singly-defined terminals. Assumed (A-DEP): the dependency's hash tables iterate in slot order, a function of unseeded FNV hashes of the keys; red-black tables iterate in key order; grammar.CmpProduction is total. NOT decided: equality of outputs across fresh processes as such (a contract relates one call's inputs to its outputs; covered only through 'no per-process input'), Spec.DFA's use of the dependency's CombineDFA.",
 		Trusted: []string{"A-DEP: hash-table iteration order is a function of the keys (hash.HashFuncForString has no per-process seed: read off its source)", "A-DEP: grammar.CmpProduction / CmpTerminal are total orders"},
 	})
+}
+
+// pureCond: a filter condition made of selectors, indexing, comparisons, literals and len/cap only
+func pureCond(e ast.Expr) bool {
+	ok := true
+	ast.Inspect(e, func(n ast.Node) bool {
+		if c, isCall := n.(*ast.CallExpr); isCall {
+			if fn := exprString(c.Fun); fn != "len" && fn != "cap" {
+				ok = false
+			}
+		}
+		return ok
+	})
+	return ok
+}
+
+// isSymbolTableAll: x is a call <table>.All() on a value whose type comes from the dependency's symboltable package.
+func isSymbolTableAll(info *types.Info, x ast.Expr) bool {
+	call, ok := ast.Unparen(x).(*ast.CallExpr)
+	if !ok {
+		return false
+	}
+	sel, ok := ast.Unparen(call.Fun).(*ast.SelectorExpr)
+	if !ok || sel.Sel.Name != "All" {
+		return false
+	}
+	tv, ok := info.Types[sel.X]
+	if !ok {
+		return false
+	}
+	return strings.Contains(tv.Type.String(), "moorara/algo/symboltable.") && !strings.Contains(tv.Type.String(), "OrderedSymbolTable")
 }
